@@ -216,6 +216,16 @@ class CallMixin:
             return res
         if name == "print":
             return [(p, NoneV)]
+        if name == "str" and len(args) == 1 and not kwargs:
+            # str(x): an abstract, total conversion (user __str__ of data objects assumed not to raise and not to touch the tree)
+            a = args[0]
+            if a.tag == "str":
+                return [(p, a)]
+            if a.tag == "ref":
+                return [(p, SV("val", z3.Function("repr_of", L.Ref, L.Val)(a.z)))]
+            if a.tag in ("val", "int", "bool", "none"):
+                return [(p, SV("val", z3.Function("str_of", L.Val, L.Val)(self.to_sort(a, L.Val))))]
+            raise Unsupported(f"str() of {a.tag}")
         if name == "list":
             a = args[0] if args else None
             if a is None:
